@@ -57,7 +57,12 @@ func oracleC17(c *props.Case) props.Verdict {
 						hi = len(content)
 					}
 					sig := sc.Family + ":" + what + "-leaked"
-					if sc.Family == "panos" && what == "api-key" && strings.Contains(content[lo:hi], "key=") &&
+					// F6: the error of http.Client.Get for a request that got
+					// no answer at all (connection closed, time-out) names the
+					// URL. Other failures (e.g. an answer cut off inside its
+					// body) do not, on the unchanged tree.
+					noAnswer := o.FaultAt >= 0 && (o.Lines[o.FaultAt].Res == "fault:close" || o.Lines[o.FaultAt].Res == "fault:stall")
+					if sc.Family == "panos" && what == "api-key" && noAnswer && strings.Contains(content[lo:hi], "key=") &&
 						(strings.Contains(content[lo:hi], "Get \"") || strings.Contains(content[lo:hi], "Get ")) {
 						sig = "panos:F6-api-key-in-transport-error-url"
 					}
@@ -79,6 +84,9 @@ func oracleC17(c *props.Case) props.Verdict {
 		if fl := o.Lines[o.FaultAt]; (sc.Family == "panos" || sc.Family == "nsx") && fl.Res == "fault:close" &&
 			(strings.Contains(fl.Text, "type=keygen") || strings.Contains(fl.Text, "/api/session/create")) {
 			classes = append(classes, "c17:"+sc.Family+":transport-error-at-login")
+		}
+		if fl := o.Lines[o.FaultAt]; fl.Res == "fault:truncated" && o.FaultAt > 0 {
+			classes = append(classes, "c17:"+sc.Family+":answer-cut-off-after-login")
 		}
 	}
 	return props.PassV(nt, classes...)
